@@ -66,7 +66,7 @@ CONSTANTS NK, T,       \* keypers 0..NK-1 of ONE keyper set (keyper config index
                        \*   "wrapped" through the MessagingMiddleware (proposed repair GNO-1.diff)
 
 CS == INSTANCE ChainSyncProps
-SR == INSTANCE SigRuleProps WITH LenRule <- "equal", StoreRule <- "last", MissRule <- "reject"
+SR == INSTANCE SigRuleProps WITH LenRule <- "equal", StoreRule <- "last", MissRule <- "reject", RegRule <- "append"
 G  == INSTANCE Gossip WITH N <- NK, T <- T, Rounds <- <<>>, Flavour <- "gnosis"
 
 ASSUME NEons = 1
